@@ -63,6 +63,14 @@ def run(ctx):
         for c in extra:
             c["id"] += 1000000
         cases += extra
+    # several domains over the same type names alive in one process (MC_Registry): design model with the two
+    # sharing mistakes refuted, and its behaviours replayed (parse, parse, query the earlier one, ...)
+    import registry_machine
+    registry_machine.model_check(ctx, 4 if quick else 5)
+    seqs = registry_machine.behaviours(ctx, 4)
+    rng.shuffle(seqs)
+    registry_machine.replay(ctx, seqs[:600] if quick else seqs, 9000000, (0, 1, 2) if quick else tuple(range(16)))
+    ctx.extra["registry_behaviours_replayed"] = 600 if quick else len(seqs)
     n_gen = len(cases)
     for i in range(120 if quick else 2500):
         cases.append(random_rendering(rng, 5000000 + i))
@@ -73,7 +81,10 @@ def run(ctx):
         ctx.nontrivial.add(h.get("text", ""))
         if len(ctx.samples) < 2:
             ctx.sample({"types_section": h.get("text", ""), "events": [e["c"] for e in h["ev"]][:8]})
-    ctx.rule = ("M: every forest on 4 (quick) / 5 (thorough) names x every order of its declaration groups x grouped/split x "
+    ctx.rule = ("M: MC_Registry - several domains over the same type names in one process, each dictionary of type objects "
+                "its own (shared module-level dictionary and answers cached by type name are refuted), behaviours of 4 calls "
+                "replayed with every earlier domain re-queried; "
+                "M: every forest on 4 (quick) / 5 (thorough) names x every order of its declaration groups x grouped/split x "
                 "object-children typed/trailing x root parents declared or only on right-hand sides; G: a stride of those "
                 f"renderings ({n_gen}) plus random forests on 5-9 names (depth<=4, width<=4) wrapped into a domain: subtype "
                 "matrix over all pairs, hierarchy graph, acceptance of a problem fact for every (object type, required type) "
